@@ -32,6 +32,7 @@ type PkgConfig struct {
 	L1      []string `json:"l1"`       // function names (as printed in sites, e.g. "(*Interpreter).EvaluateExpression") that get an entry yield
 	L2Files []string `json:"l2_files"` // file base names with a yield before every statement ("*" = all)
 	Touch   bool     `json:"touch"`    // race probes
+	TouchLocalMaps bool `json:"touch_local_maps"` // also probe index operations on maps held in local variables (they may alias shared records)
 	TouchFiles []string `json:"touch_files"` // restrict probes to these files (empty = all)
 	Replace map[string]string `json:"replace_imports"` // import path -> replacement path
 	CallReplace map[string]string `json:"replace_calls"` // "recvTypeOrPkg.Method" -> zzsimrt function (expr receiver becomes first arg)
@@ -811,6 +812,7 @@ func (w *weaver) rewriteSelect(sel *ast.SelectStmt) (ast.Stmt, error) {
 
 type access struct {
 	expr  ast.Expr // field/var expression, or map expression
+	deep  bool     // value handed to a JSON encoder: every reachable map is read
 	isMap bool
 	ptr   bool // expr is itself a pointer identifying the object (container/list)
 	write bool
@@ -852,7 +854,7 @@ func (w *weaver) probeStmt(s ast.Stmt, fn []string) {
 	var acc []access
 	add := func(a access) {
 		for i, o := range acc {
-			if o.isMap == a.isMap && o.ptr == a.ptr && exprString(w.fset, o.expr) == exprString(w.fset, a.expr) {
+			if o.isMap == a.isMap && o.ptr == a.ptr && o.deep == a.deep && exprString(w.fset, o.expr) == exprString(w.fset, a.expr) {
 				if a.write {
 					acc[i].write = true
 				}
@@ -929,6 +931,8 @@ func (w *weaver) probeStmt(s ast.Stmt, fn []string) {
 			wr = "true"
 		}
 		switch {
+		case a.deep:
+			out = append(out, &ast.ExprStmt{X: w.rt("TouchDeep", w.clone(a.expr), lit(site))})
 		case a.isMap:
 			out = append(out, &ast.ExprStmt{X: w.rt("TouchMap", w.clone(a.expr), ast.NewIdent(wr), lit(site))})
 		case a.ptr:
@@ -1012,10 +1016,10 @@ func (w *weaver) sharedMapExpr(e ast.Expr) bool {
 	switch x := e.(type) {
 	case *ast.Ident:
 		v, ok := w.info.Uses[x].(*types.Var)
-		return ok && (isPkgLevel(v) || w.captured[v])
+		return ok && (isPkgLevel(v) || w.captured[v] || w.cfg.TouchLocalMaps)
 	case *ast.SelectorExpr:
 		if s := w.info.Selections[x]; s != nil && s.Kind() == types.FieldVal {
-			return w.sharedBase(x)
+			return w.sharedBase(x) || w.cfg.TouchLocalMaps
 		}
 		if v, ok := w.info.Uses[x.Sel].(*types.Var); ok {
 			return isPkgLevel(v)
@@ -1083,6 +1087,21 @@ func isSyncType(t types.Type) bool {
 		switch n.Obj().Pkg().Path() {
 		case "sync", "sync/atomic":
 			return true
+		}
+	}
+	return false
+}
+
+// jsonEncodeCall recognises json.Marshal(v), json.MarshalIndent(v, ..) and (*json.Encoder).Encode(v).
+func (w *weaver) jsonEncodeCall(call *ast.CallExpr) bool {
+	if pkg, name, ok := w.pkgFunc(call); ok {
+		return pkg == "encoding/json" && (name == "Marshal" || name == "MarshalIndent")
+	}
+	if sel, ok := call.Fun.(*ast.SelectorExpr); ok {
+		if s := w.info.Selections[sel]; s != nil && s.Kind() == types.MethodVal {
+			if fn, ok := s.Obj().(*types.Func); ok && fn.Pkg() != nil && fn.Pkg().Path() == "encoding/json" && fn.Name() == "Encode" {
+				return true
+			}
 		}
 	}
 	return false
@@ -1209,6 +1228,10 @@ func (c *collector) expr(e ast.Expr) {
 				}
 				return
 			}
+		}
+		// values handed to encoding/json: the encoder reads every reachable map
+		if w.jsonEncodeCall(x) && len(x.Args) >= 1 && pure(x.Args[0]) {
+			c.add(access{expr: x.Args[0], deep: true})
 		}
 		// container/list methods on a shared field: model as access to the list object
 		if sel, ok := x.Fun.(*ast.SelectorExpr); ok {
